@@ -20,6 +20,7 @@ EXPLANATION = (
     "(rerun) a second run into the already populated in-memory output directory leaves the same files and contents; "
     "(inherited_twice) a method of a private ancestor renders identically in two public subclasses, for every "
     "function shape of the zoo."
+    ' (reexporters) a class and a function re-exported by every subset (>= 2) of five packages - ancestors and non-ancestors of the defining module, shallower and deeper, by name or alias: api.to_dict() before == after, second generation identical.'
 )
 ASSUMPTIONS = ["API models of the zoo; pathlib I/O replaced by an in-memory file system that persists between the two runs"]
 BOUNDS = {"quick": "zoo shapes varied one at a time", "thorough": "zoo full product"}
